@@ -53,6 +53,8 @@ type vwStep struct {
 	Batch bool   `json:"batch"`
 	N     int    `json:"n"`
 	Tag   string `json:"tag"`
+	Db    int    `json:"db"`   // DbId of the request (0 default; a never-created db or 0xff make a will end in UNKNOWN_DB)
+	Data  string `json:"data"` // value payload (SET <string>) carried by the request, "" = none
 }
 
 type vwScenario struct {
@@ -111,6 +113,7 @@ type vwConn struct {
 	closing   bool // close initiated
 	closed    bool // handler finished (closedWaiter)
 	hungRep   bool
+	db        int // database selected on a text connection
 	answered  bool
 	wills     []vwWill
 	parked    chan int64
@@ -508,8 +511,15 @@ func vwLockFrame(ct uint8, id int64, s *vwStep) []byte {
 	cmd.Expried = uint16(s.Ex)
 	cmd.Count = uint16(s.Cnt)
 	cmd.Rcount = uint8(s.Rc)
+	cmd.DbId = uint8(s.Db)
+	if s.Data != "" {
+		cmd.Flag |= protocol.LOCK_FLAG_CONTAINS_DATA
+	}
 	b := make([]byte, 64)
 	_ = cmd.Encode(b)
+	if s.Data != "" {
+		b = append(b, protocol.NewLockCommandDataSetString(s.Data).Data...) // 4-byte length + frame, follows the command
+	}
 	return b
 }
 
@@ -532,6 +542,13 @@ func vwTextCommand(s *vwStep) []byte {
 	if s.Will {
 		args = append(args, "WILL", "1")
 	}
+	if s.Data != "" {
+		args = append(args, "SET", s.Data)
+	}
+	return vwResp(args)
+}
+
+func vwResp(args []string) []byte {
 	var b bytes.Buffer
 	fmt.Fprintf(&b, "*%d\r\n", len(args))
 	for _, a := range args {
@@ -550,6 +567,24 @@ func (r *vwRun) request(s *vwStep) {
 		r.emit(map[string]interface{}{"e": "wskip", "why": "text connection is waiting for a reply", "c": s.C, "t": r.w.now})
 		return
 	}
+	// text: the DbId of a text request is the connection's selected database
+	if c.kind == "text" && s.Db != c.db {
+		b0 := atomic.LoadInt64(&c.replies)
+		r.emit(map[string]interface{}{"e": "wsel", "c": c.id, "db": s.Db, "t": r.w.now})
+		if !r.write(c, vwResp([]string{"SELECT", strconv.Itoa(s.Db)})) {
+			return
+		}
+		c.sent++
+		c.db = s.Db
+		for dl := time.Now().Add(60 * time.Second); atomic.LoadInt64(&c.replies) <= b0 && time.Now().Before(dl); {
+			select {
+			case <-c.readerEnd:
+				dl = time.Now()
+			default:
+			}
+			time.Sleep(200 * time.Microsecond)
+		}
+	}
 	r.nextId++
 	id := r.nextId
 	cmd := "L"
@@ -559,7 +594,7 @@ func (r *vwRun) request(s *vwStep) {
 		ct = protocol.COMMAND_UNLOCK
 	}
 	r.emit(map[string]interface{}{"e": "wreq", "id": id, "c": c.id, "kind": c.kind, "cmd": cmd, "will": s.Will, "key": s.Key, "lid": s.Lid,
-		"to": s.To, "ex": s.Ex, "cnt": s.Cnt, "rc": s.Rc, "t": r.w.now})
+		"to": s.To, "ex": s.Ex, "cnt": s.Cnt, "rc": s.Rc, "db": s.Db, "data": s.Data != "", "t": r.w.now})
 	if s.Will {
 		c.wills = append(c.wills, vwWill{id: id, ct: ct, key: vKey(s.Key), lid: vKey(s.Lid)})
 	}
